@@ -55,6 +55,17 @@ type appState struct {
 	// drybegin … dryend: the operations in between run on a branch of the state that is dropped at dryend (a transaction that
 	// fails at its end, a simulation)
 	savedCtx *sdk.Context
+	// env meta: what surrounds a packet without being part of it — the relayer's address, the packet's timeout, the block
+	relayer       sdk.AccAddress
+	timeoutHeight uint64
+	timeoutStamp  uint64
+}
+
+func (s *appState) relayerAddr() sdk.AccAddress {
+	if s.relayer != nil {
+		return s.relayer
+	}
+	return sdk.AccAddress([]byte("relayer-account-0001"))
 }
 
 func (d *driver) setup(f []string) string {
@@ -310,7 +321,7 @@ func (s *appState) runRecv(d *driver, stack porttypes.IBCModule, pkt channeltype
 				d.lastPanic = obs.panicMsg
 			}
 		}()
-		ack := stack.OnRecvPacket(cacheCtx, pkt, sdk.AccAddress([]byte("relayer-account-0001")))
+		ack := stack.OnRecvPacket(cacheCtx, pkt, s.relayerAddr())
 		obs.ack, obs.src, obs.ackBytes = classifyAck(ack)
 		obs.events = cacheCtx.EventManager().Events()
 	}()
@@ -334,8 +345,12 @@ func (s *appState) mkPacket(f []string) (channeltypes.Packet, bool) {
 	}
 	s.seq++
 	s.noteEscrow(mustUnhx(f[2]), mustUnhx(f[3]))
+	th := s.timeoutHeight
+	if th == 0 && s.timeoutStamp == 0 {
+		th = 1000000
+	}
 	return channeltypes.NewPacket([]byte(mustUnhx(f[4])), s.seq, mustUnhx(f[0]), mustUnhx(f[1]), mustUnhx(f[2]), mustUnhx(f[3]),
-		clienttypes.NewHeight(1, 1000000), 0), true
+		clienttypes.NewHeight(1, th), s.timeoutStamp), true
 }
 
 func keccakDenomName(s *appState, hashHex string) string {
